@@ -512,6 +512,11 @@ CO_ERR COSdoDownloadSegmented(CO_SDO *srv)
     uint8_t  cmd;
     uint8_t  bid;
 
+    if (srv->Obj == 0) {
+        COSdoAbort(srv, CO_SDO_ERR_CMD);
+        return (CO_ERR_SDO_ABORT);
+    }
+
     cmd = CO_GET_BYTE(srv->Frm, 0);
     if ((cmd >> 4) != srv->Seg.TBit) {
         COSdoAbort(srv, CO_SDO_ERR_TBIT);
